@@ -150,7 +150,7 @@ def run(ctx):
             # head and its brace-less body): comment lines are not statements, the columns of the code lines must not move
             clines = []
             for ln in lines:
-                if ln[2] not in ("pp",) and not (clines and clines[-1][2] == "pp") and rng.random() < 0.18:
+                if ln[2] not in ("pp",) and not (clines and clines[-1][2] == "pp") and rng.random() < (0.7 if ln[1] and ln[1][0] in ("else", "while", "{", "}") else 0.15):
                     clines.append((ln[0], [rng.choice(["// own-line", "/* own-line */", "/* a\n * b */"])], "cmt"))
                 clines.append(ln)
             lay = {"indent": rng.choice(["random", "clean"]), "gaps": "one", "trailing": 0, "blanklines": 0}
